@@ -86,6 +86,41 @@ Proof.
 Qed.
 Print Assumptions race_reaches_result.
 
+(* conservation of sockets, for every label sequence and every scripted outcome of socket(), bind() (any number of
+   local addresses per family, any subset failing) and connect: an open socket is always one that an attempt of this
+   race created, and once the race has a result every socket it ever created is closed -- except the returned one *)
+Theorem fd_conservation : forall c tr s,
+  NoDup (map a_id (c_addrs c)) -> c_addrs c <> [] -> exec c (init c) tr = Some s ->
+  (forall id, In id (r_open s) -> In id (r_created s)) /\
+  (forall o, r_result s = Some o -> forall id, In id (r_created s) -> (In id (r_open s) <-> o = ResSock id)).
+Proof.
+  intros c tr s Hd Hne H. split.
+  - apply (exec_inv3 c tr (init c) s); [intros id [] | exact H].
+  - intros o Ho id _.
+    destruct (result_exact_inv c s (exec_inv c Hd Hne tr (init c) s (init_inv c) H)) as [R1 [R2 _]].
+    destruct o as [w | n | | ].
+    + destruct (R1 w Ho) as [-> _]. simpl. split; [intros [-> | []]; reflexivity | intro E; inversion E; auto].
+    + rewrite (R2 _ Ho) by discriminate. split; [intros [] | discriminate].
+    + rewrite (R2 _ Ho) by discriminate. split; [intros [] | discriminate].
+    + rewrite (R2 _ Ho) by discriminate. split; [intros [] | discriminate].
+Qed.
+Print Assumptions fd_conservation.
+
+(* "every resolved address is attempted unless a winner exists": when the race reports that all attempts failed, every
+   address of the attempt list -- a permutation of the resolved list (reorder_perm) -- has been attempted and has
+   finished, and the report carries at least one error per address *)
+Theorem all_addresses_attempted : forall c tr s n,
+  NoDup (map a_id (c_addrs c)) -> c_addrs c <> [] -> exec c (init c) tr = Some s -> r_result s = Some (ResErrs n) ->
+  (forall t, In t (r_att s) -> t = TFin) /\ length (r_att s) = length (c_addrs c) /\ length (c_addrs c) <= n.
+Proof.
+  intros c tr s n Hd Hne H Hr.
+  assert (I4 : Inv4 c s).
+  { apply (exec_inv4 c Hd Hne tr (init c) s (init_inv c)); [intros m Hm; discriminate | exact H]. }
+  destruct (I4 n Hr) as [A B]. split; [exact A | split; [| exact B]].
+  apply (i_len c s (exec_inv c Hd Hne tr (init c) s (init_inv c) H)).
+Qed.
+Print Assumptions all_addresses_attempted.
+
 (* a connect attempt that succeeds while a winner exists closes its own socket and leaves the winner alone,
    in every state (not only reachable ones) *)
 Theorem double_success_closes_loser : forall (c : rcfg) s i s' w a,
